@@ -18,7 +18,8 @@ RULE = ('Hypothesis-generated select lists over all item kinds (5 field spelling
         'TOP, GROUP BY}, plus * EXCEPT and UPDATE; observed through query_table(output_column_names), the first line of query_csv output and the '
         'columns of query_pandas_dataframe. Oracle: (i) len(header) == len(record) for every output record; (ii) reference naming function on the '
         'structured query (alias / source column name / identifier / colK); header-less input gives a header iff an alias is used; star+alias on '
-        'header-less input must be rejected. Non-trivial = >=3 items of >=3 different naming kinds, or DISTINCT COUNT / EXCEPT / star with join.')
+        'header-less input must be rejected. Non-trivial = >=3 items of >=3 different naming kinds, or DISTINCT COUNT / EXCEPT / star with join.'
+        ' Later additions: deterministic wide-header cases (25 and 101 named columns, aN / a[N] with two- and three-digit N, bN under a JOIN), f-string and dict-literal items.')
 ASSUMPTIONS = ['no redundant parentheses around a lone variable (whether `(a1)` is "an aN" is not fixed by the property)',
                'select lists have a fixed column count (no *-unpacking of variable-length values)']
 
